@@ -264,6 +264,12 @@ impl HvarVvarSubsetPlan {
     ) -> Result<Self, ReadError> {
         let mut this = HvarVvarSubsetPlan::default();
         let vardata_count = var_store.item_variation_data_count() as usize;
+        if vardata_count == 0 {
+            // no delta set a mapping could refer to
+            return Err(ReadError::MalformedData(
+                "ItemVariationStore without ItemVariationData",
+            ));
+        }
 
         let mut inner_sets = Vec::new();
         inner_sets.resize(vardata_count, Default::default());
@@ -821,5 +827,31 @@ mod test {
                 );
             }
         }
+    }
+
+    // a variation store without any ItemVariationData: nothing to subset, but no panic either
+    #[test]
+    fn test_subset_hvar_store_without_item_variation_data() {
+        let raw_bytes: [u8; 38] = [
+            0x00, 0x01, 0x00, 0x00, 0x00, 0x00, 0x00, 0x14, 0x00, 0x00, 0x00, 0x00, 0x00, 0x00,
+            0x00, 0x00, 0x00, 0x00, 0x00, 0x00, 0x00, 0x01, 0x00, 0x00, 0x00, 0x08, 0x00, 0x00,
+            0x00, 0x01, 0x00, 0x01, 0x00, 0x00, 0x40, 0x00, 0x40, 0x00,
+        ];
+
+        let hvar = Hvar::read(FontData::new(&raw_bytes)).unwrap();
+        let mut builder = FontBuilder::new();
+        //dummy font
+        let font = FontRef::new(&raw_bytes).unwrap();
+
+        let mut plan = Plan::default();
+        plan.new_to_old_gid_list
+            .push((GlyphId::NOTDEF, GlyphId::NOTDEF));
+        plan.glyphset.insert(GlyphId::NOTDEF);
+
+        let mut s = Serializer::new(1024);
+        assert_eq!(s.start_serialize(), Ok(()));
+        let ret = hvar.subset(&plan, &font, &mut s, &mut builder);
+        assert!(ret.is_err());
+        assert!(!s.in_error());
     }
 }
